@@ -133,10 +133,14 @@ Definition decl_precs_consistent_stmt : Prop :=
   forall ds pp, (forall p q, pp p = Some q -> exists t, token_prec_spec ds t = Some q) ->
     prec_consistent (token_prec_spec ds) pp.
 
+(* the spec determines the precedence *)
+Definition prod_prec_spec_functional_stmt : Prop :=
+  forall tp pn syms r1 r2, prod_prec_spec tp pn syms r1 -> prod_prec_spec tp pn syms r2 -> r1 = r2.
+
 Definition prod_prec_rule_stmt : Prop :=
   forall tp pn syms,
     match prod_prec_mirror tp pn syms with
-    | Done r => prod_prec_spec tp pn syms r /\ r = prod_prec_ref tp pn syms
+    | Done r => prod_prec_spec tp pn syms r
     | Panic => exists n, pn = Some n /\ tp n = None
     | OutOfFuel => False
     end.
@@ -156,3 +160,10 @@ Definition expect_mirror_characterised_stmt : Prop :=
 (* … which is not the rule: %expect 2 with no conflicts builds *)
 Definition expect_mirror_refuted_stmt : Prop :=
   exists e err sr rr, build_ok_mirror e err sr rr <> build_ok_spec e err sr rr.
+
+(* ---- the boolean side conditions imply the declarative ones ------------------------------ *)
+
+Definition wf_state_b_sound_stmt : Prop :=
+  forall g items edges, wf_state_b g items edges = true -> wf_state g items edges.
+Definition prec_consistent_b_sound_stmt : Prop :=
+  forall tl pl, prec_consistent_b tl pl = true -> prec_consistent (precs_of tl) (precs_of pl).
